@@ -21,6 +21,7 @@ CONSTANTS MaxSend0,        \* the peer's SETTINGS_MAX_CONCURRENT_STREAMS at the 
                            \*  "shared_slot": SendRequest::poll_ready and the pending stream's own SendStream wait at the same time (one send_task)
                            \*  "reset_after_end": poll_reset is entered on a stream that ended without a reset
                            \*  "push_after_recv_drop": the RecvStream is dropped while the PushPromises handle of the stream is alive
+                           \*  "cancel_pending_open": the last handle of a request that is still pending open (not yet sent) is dropped
           ExportLen
 
 VARIABLES bud, hist,
@@ -77,13 +78,16 @@ ResetRule(c, x) ==
     IF "reset_after_end" \in Allow \/ c # "poll_reset" \/ x = 0 THEN TRUE
     ELSE ~(IsClosedSt(str[x].state) /\ str[x].state.cause = "ES")
 
-DropRule(x, h) == IF "push_after_recv_drop" \in Allow \/ h # "recv" THEN TRUE ELSE ~(app[x].resp /\ app[x].push)
+DropRule(x, h) == /\ (IF "push_after_recv_drop" \in Allow \/ h # "recv" THEN TRUE ELSE ~(app[x].resp /\ app[x].push))
+                  /\ (IF "cancel_pending_open" \in Allow THEN TRUE ELSE ~(str[x].pOpen /\ str[x].refs = 1))
 
 MCNext ==
     \* ---- the application: calls that can park ----
     \/ \E t \in Tasks, c \in AllCalls, x \in AllIds \cup {0} :
           /\ (IF todo = <<>> THEN c \in CallKinds ELSE TRUE)
           /\ (IF x = 0 THEN c = "poll_ready" ELSE TRUE) /\ SlotRule(t, c, x) /\ ResetRule(c, x)
+          \* (export: the simulator's response writer can call poll_reset only on the SendStream)
+          /\ (IF Export /\ c = "poll_reset" /\ x \in Remote THEN app[x].ss ELSE TRUE)
           /\ Use("call") /\ Call(t, c, x) /\ H(<<"call", t, c, x>>)
     \/ \E t \in Tasks : Repoll(t) /\ UNCHANGED bud /\ H(<<"repoll", t, tk[t].call, tk[t].sid>>)
     \* ---- the application: calls that cannot park ----
@@ -94,6 +98,7 @@ MCNext ==
     \/ \E x \in AllIds : "send_reset" \in AppKinds /\ Use("app") /\ SendReset(x) /\ H(<<"send_reset", x>>)
     \/ \E x \in AllIds, n \in 1..MaxData : "release" \in AppKinds /\ Use("app") /\ n <= str[x].infl /\ ReleaseCapacity(x, n) /\ H(<<"release", x, n>>)
     \/ \E x \in AllIds, h \in {"send", "recv", "push"} : (IF todo = <<>> THEN ("drop_" \o h) \in AppKinds ELSE TRUE) /\ DropRule(x, h) /\ Use("drop") /\ DropHandle(x, h) /\ H(<<"drop", x, h>>)
+    \/ "drop_sr" \in AppKinds /\ DropSr /\ UNCHANGED bud /\ H(<<"drop_sr">>)
     \/ "accept" \in AppKinds /\ Accept /\ UNCHANGED bud /\ H(<<"accept", Head(cn.pa)>>)
     \/ \E x \in Remote, e \in BOOLEAN : "send_response" \in AppKinds /\ SendResponse(x, e) /\ UNCHANGED bud /\ H(<<"send_response", x, e>>)
     \/ \E x \in Streams : "hold_push" \in AppKinds /\ HoldPush(x) /\ UNCHANGED bud /\ H(<<"hold_push", x>>)
@@ -132,14 +137,18 @@ Bias == LET a == hist'[Len(hist')].a IN
     /\ a[1] \in {"drop", "send_reset"} => (Len(hist) % 3 = 0 \/ todo # <<>>)
     /\ (a[1] = "call" /\ a[3] = "poll_capacity") => (IsSendStreamingSt(str[a[4]].state) \/ Len(hist) % 7 = 0)
     /\ (a[1] = "send_data" /\ a[3] = 0) => a[4]
+    /\ (a[1] = "peer" /\ a[2].ty = "WU" /\ a[2].sid # 0) => (str[a[2].sid].req > str[a[2].sid].avail \/ Len(hist) % 5 = 0)
+    /\ (a[1] = "peer" /\ a[2].ty = "WU" /\ a[2].sid = 0) => (cn.pcq # <<>> \/ Len(hist) % 5 = 0)
+
     /\ (a[1] = "peer" /\ a[2].ty = "RST") => Len(hist) % 3 = 0
     /\ (a[1] = "peer" /\ a[2].ty \in {"SET_IWS", "SET_MAXC"}) => Len(hist) % 2 = 0
 \* no request after the connection failed (the replay numbers its requests in advance)
 NoReqAfterErr == LastA = "request" => cn.err = "none"
 \* (bias) the end of the connection comes late
-LateEnd == (LastA = "peer" /\ hist'[Len(hist')].a[2].ty \in {"EOF", "GOAWAY"}) => Len(hist) + 10 >= ExportLen
+LateEnd == /\ (LastA = "peer" /\ hist'[Len(hist')].a[2].ty \in {"EOF", "GOAWAY"}) => Len(hist) + 10 >= ExportLen
+           /\ LastA = "drop_sr" => Len(hist) + 16 >= ExportLen
 Finished == Len(hist) >= ExportLen /\ todo = <<>>
 ExportInv == (Finished /\ Quiescent) =>
-                 PrintT(<<"REPLAY", ToJson([maxsend |-> MaxSend0, initwin |-> InitWin, recvwin |-> RecvWin, hist |-> hist])>>)
+                 PrintT(<<"REPLAY", ToJson([maxsend |-> MaxSend0, initwin |-> InitWin, recvwin |-> RecvWin, server |-> Remote # {}, hist |-> hist])>>)
 ExportStop == ~(Finished /\ Quiescent)
 =============================================================================
